@@ -315,7 +315,9 @@ def run_check(pid, tier, modname, stub_modules, level_text, assumptions, bounds,
         'violations': len(confirmed),
     }
     os.makedirs(os.path.join(VERIF, 'evidence'), exist_ok=True)
-    with open(os.path.join(VERIF, 'evidence', f"{pid}{os.environ.get('VERIF_EVIDENCE_SUFFIX', '')}.json"), 'w') as f:
+    # a run restricted with --only writes <id>.partial.json: <id>.json always describes a full run of a tier
+    suffix = os.environ.get('VERIF_EVIDENCE_SUFFIX', '') or ('.partial' if only else '')
+    with open(os.path.join(VERIF, 'evidence', f"{pid}{suffix}.json"), 'w') as f:
         json.dump(ev, f, indent=1, default=str)
     print(
         f'{pid} [{tier}] obligations={n_ob} paths={agg["paths"]} vcs={agg["vcs"]} (identical={agg["vcs_trivial"]} linear={agg["vcs_linear"]} exact={agg["vcs_exact"]}) '
